@@ -36,6 +36,12 @@ type Case struct {
 	Reason   string   `json:"reason,omitempty"`  // for OUT
 	ExpOut   string   `json:"specOut,omitempty"`
 	Features []string `json:"features,omitempty"`
+	// SkipOK: a compile rejection is expected for some cases (model programs)
+	SkipOK bool `json:"-"`
+	// Predicted is the JS output an implementation-shaped model predicts
+	Predicted     string `json:"predictedJs,omitempty"`
+	HasPrediction bool   `json:"-"`
+	PredictOnly   bool   `json:"-"`
 	// FixedFiles (replay) replace the unparsed program text
 	FixedFiles []core.File `json:"-"`
 	// harness trouble (generator produced something the compiler rejects)
